@@ -141,6 +141,23 @@ def run(ctx):
                     res.ok("D-TRIAD", f, norm(g_.test)[:160], "both-partners-old", loc(v.fi, g_))
                 else:
                     res.unknown("D-TRIAD", f, norm(g_.test)[:160], "both-partners-old", "the condition does not read the old state of two members directly", loc(v.fi, g_))
+        # the scan over the pairwise neighbours / the triangles of a susceptible node ends early only once the node IS infected:
+        # every `break` of these loops follows the infection store in its block
+        res.rules["D-SCAN"] = "the loops over a susceptible node's neighbours / 3-node hyperedges stop early only after the node was infected (every partner / triangle is examined otherwise)"
+        for lp in [x for x in ast.walk(sw) if isinstance(x, ast.For) and x is not sw]:
+            for b_ in ast.walk(lp):
+                if not isinstance(b_, ast.Break) or v.enclosing(b_, (ast.For, ast.While)) is not lp:
+                    continue
+                blk = None
+                par = v.parent.get(id(b_))
+                for field in ("body", "orelse"):
+                    if isinstance(getattr(par, field, None), list) and any(x is b_ for x in getattr(par, field)):
+                        blk = getattr(par, field)
+                before = blk[: next(i for i, x in enumerate(blk) if x is b_)] if blk else []
+                infected = any(isinstance(x, ast.Assign) and isinstance(x.targets[0], ast.Subscript) and norm(x.targets[0].value) == new and isinstance(x.value, ast.Constant) and x.value.value == 1 for st_ in before for x in ast.walk(st_))
+                # `if I_new[node] == 1: break` is the same thing spelled as a test
+                tested = isinstance(par, ast.If) and any(isinstance(x, ast.Subscript) and norm(x.value) == new for x in ast.walk(par.test))
+                res.add("D-SCAN", f, norm(par.test)[:120] if isinstance(par, ast.If) else "break", "break-after-infection", "ok" if infected or tested else "violation", "" if infected or tested else "the scan over the node's partners / triangles stops although the node was not infected: later pairs / 3-node hyperedges that could infect it are never examined", loc(v.fi, b_))
         if not tri_loops:
             res.unknown("D-TRIAD", f, "for triplet in get_incident_edges(node, order=2)", "both-partners-old", "the loop over the 3-node hyperedges was not recognised", loc(v.fi, sw))
         # D-SERIES
@@ -150,8 +167,9 @@ def run(ctx):
             if isinstance(r.value, ast.BinOp) and isinstance(r.value.op, ast.Div) and isinstance(r.value.left, ast.Name):
                 series = r.value.left.id
                 den = norm(r.value.right)
-                ddef = [n for n in walk_no_nested(v.fi.node) if isinstance(n, ast.Assign) and norm(n.targets[0]) == den]
-                res.check(bool(ddef) and norm(ddef[-1].value) in ("len(I_0)", "len(nodes)", "hypergraph.num_nodes()"), "D-SERIES", f, norm(r), "divisor", "the infected counts are not divided by the population size", loc(v.fi, r))
+                dv = norm(v.inline(r.value.right))
+                pop = dv in ("len(I_0)", "len(nodes)", "hypergraph.num_nodes()", "len(hypergraph.get_nodes())")
+                res.add("D-SERIES", f, norm(r), "divisor", "ok" if pop else ("violation" if isinstance(v.inline(r.value.right), ast.Constant) or dv in ("T", "t", "Infected") else "unknown"), "" if pop else "the infected counts are not divided by the population size", loc(v.fi, r))
         if series is None:
             raise AnalysisError(f"{f}: return idiom not recognised")
         st = [n for n in walk_no_nested(v.fi.node) if isinstance(n, ast.Assign) and isinstance(n.targets[0], ast.Subscript) and norm(n.targets[0].value) == series]
@@ -160,7 +178,9 @@ def run(ctx):
         if first:
             src = norm(first[0].value)
             d0 = [n for n in walk_no_nested(v.fi.node) if isinstance(n, ast.Assign) and norm(n.targets[0]) == src and n.lineno < first[0].lineno]
-            res.check(bool(d0) and norm(d0[-1].value) == "sum(I_0.values())", "D-SERIES", f, norm(d0[-1]) if d0 else src, "initial-count", "the initial value is not the number of initially infected nodes", loc(v.fi, first[0]))
+            val0 = norm(d0[-1].value) if d0 else norm(v.inline(first[0].value))
+            good0 = val0 in ("sum(I_0.values())", "sum(I_old.values())")
+            res.add("D-SERIES", f, norm(d0[-1]) if d0 else src, "initial-count", "ok" if good0 else ("violation" if val0.startswith(("len(", "0", "1")) or val0.isdigit() else "unknown"), "" if good0 else "the initial value is not the number of initially infected nodes", loc(v.fi, first[0]))
         # early termination only in the state that is absorbing for every rate triple (nobody infected)
         res.rules["G-ABSORB"] = "the time loop runs while `Infected > 0 and t < T`: the only early exit is the die-out state, which is absorbing for all rates"
         t_ = wl.test
@@ -201,7 +221,11 @@ def run(ctx):
         if inner:
             src = norm(inner[0].value)
             dd = [n for n in wl.body if isinstance(n, ast.Assign) and norm(n.targets[0]) == src]
-            res.check(bool(dd) and norm(dd[-1].value) == f"sum({new}.values())", "D-SERIES", f, norm(dd[-1]) if dd else src, "count-of-new", "the recorded count is not the number of infected nodes of the new state", loc(v.fi, inner[0]))
+            valn = norm(dd[-1].value) if dd else src
+            goodn = valn == f"sum({new}.values())"
+            # positively the wrong state: the count of the OLD buffer before the hand-over / of the initial state
+            badn = valn in (f"sum({old}.values())", "sum(I_0.values())") and not any(isinstance(p_, ast.Assign) and norm(p_.targets[0]) == old and p_.lineno < inner[0].lineno and p_.lineno > sw.end_lineno for p_ in wl.body)
+            res.add("D-SERIES", f, norm(dd[-1]) if dd else src, "count-of-new", "ok" if goodn else ("violation" if badn else "unknown"), "" if goodn else "the recorded count is not the number of infected nodes of the new state", loc(v.fi, inner[0]))
 
     with res.guard("N-FANCYAUG in transition_matrix"):
         from ..lints import check_fancy_augassign
